@@ -46,6 +46,8 @@ def run(ctx, rep):
     rep.guarded("R13-CAPTURE", lambda: r_capture(sh, rep))
     rep.rule("R13-POSTFIX", "call, field access and tuple index print an operator expression they apply to in parentheses", floor=3)
     rep.guarded("R13-POSTFIX", lambda: r_postfix(sh, rep))
+    rep.rule("R13-SITES", "three single-site clauses: blank lines count as newlines for statement starts; both kinds of argument names print their label; `if x is T` is sugar only for `if x is x: T`", floor=3)
+    rep.guarded("R13-SITES", lambda: r_sites(sh, rep))
     rep.rule("R13-SUGAR", "`expect True = e` is shortened to `expect e` only for a plain assignment; a pipe elides a first-position hole only when it carries no label", floor=2)
     rep.guarded("R13-SUGAR", lambda: r_sugar(sh, rep))
 
@@ -602,3 +604,40 @@ def r_sugar(sh, rep):
                     if fp.get("name") == "label" and "None" in json.dumps(fp.get("pat") or {}):
                         ok = True
     rep.check(bool(tests) and ok, "R13-SUGAR", "pipe#elided-hole-is-unlabelled", sh.loc(FMT, tests[0]) if tests else sh.loc(FMT, p), "the pipe printer drops a first-position hole whatever its label: `x |> g(b: _, a: 2)` becomes `x |> g(a: 2)`, which passes x as the first positional argument instead of as `b`")
+
+
+def r_sites(sh, rep):
+    """Narrow clauses, one site each (each answers a change a mutation author made; all three are necessary for format ->
+    parse to be the identity):
+    (a) the formatter squashes any run of blank lines into one, so whether `(`, `-` or `|>` starts a new statement must
+        not depend on how many blank lines precede it: the lexer's `previous token was a newline` flag is set by NewLine and
+        by EmptyLine alike;
+    (b) a parameter `label name` prints its label whenever it differs from the name, for named and for discarded names;
+    (c) `if x is p: T` may be printed `if x is T` only when p is the variable x itself."""
+    lf = find_fn(sh.file(LEX), "run")
+    rep.touched(LEX, "lexer::run")
+    flags = [n for n in walk(lf["body"]) if n.get("k") == "Local" and n["pat"].get("k") == "Ident" and "newline" in n["pat"]["name"] and n.get("init") is not None and "Token::" in sh.nsrc(LEX, n["init"])]
+    ok = bool(flags) and all("Token::NewLine" in sh.nsrc(LEX, n["init"]) and "Token::EmptyLine" in sh.nsrc(LEX, n["init"]) for n in flags)
+    rep.check(ok, "R13-SITES", "lexer#blank-lines-are-newlines", sh.loc(LEX, flags[0]) if flags else sh.loc(LEX, lf), "the lexer's newline flag does not treat Token::NewLine and Token::EmptyLine alike: after formatting (which turns two blank lines into one) a line starting with `-` or `(` is glued to the previous statement")
+    imp = [it for _, it in items(sh.file(FMT)) if it["k"] == "Impl" and re.search(r"(^|[^\w])ArgName$", it["self_ty"].strip()) and "Documentable" in (it.get("trait") or "")]
+    fns = [f for i in imp for f in i["items"] if f.get("k") == "Fn" and f["name"] == "to_doc"]
+    if not fns:
+        raise AnchorMissing("Documentable::to_doc for &ArgName")
+    m = next(matches_in(fns[0]["body"]), None)
+    bad = []
+    if m is not None:
+        for a in m["arms"]:
+            binds = {x["name"] for x in walk(a["pat"]) if x.get("k") == "Ident"} | {fp.get("name") for x in walk(a["pat"]) if x.get("k") == "PStruct" for fp in x.get("fields", [])}
+            if "label" not in binds or not re.search(r"(?<![\w.])label\b", sh.nsrc(FMT, a["body"])):
+                bad.append(sorted(last(pat_head(x) or "_") for x in pat_alts(a["pat"])))
+    rep.check(m is not None and not bad, "R13-SITES", "ArgName#every-kind-prints-its-label", sh.loc(FMT, fns[0]), "the printer of argument names has an arm (%s) that ignores the label: `fee _fee: Int` loses its external name and callers using `fee:` no longer type-check" % bad)
+    ib = find_method(sh.file(FMT), "Formatter", "if_branch")
+    sug = [n for n in walk(ib["body"]) if n.get("k") == "Local" and n["pat"].get("k") == "Ident" and "sugar" in n["pat"]["name"] and n.get("init") is not None and n["init"].get("k") == "Macro"]
+    ok = False
+    if sug:
+        mac = sug[0]["init"]
+        src = sh.nsrc(FMT, mac)
+        names = [x["name"] for x in walk(mac.get("pat") or {}) if x.get("k") == "Ident"]
+        g = mac.get("guard") or {}
+        ok = len(names) >= 2 and g.get("k") == "Binary" and g.get("op") == "==" and g["l"].get("k") == "Path" and g["r"].get("k") == "Path" and {g["l"]["p"], g["r"]["p"]} <= set(names) and g["l"]["p"] != g["r"]["p"]
+    rep.check(bool(sug) and ok, "R13-SITES", "if_branch#sugar-needs-same-name", sh.loc(FMT, sug[0]) if sug else sh.loc(FMT, ib), "`if x is p: T` is printed as `if x is T` without testing that the pattern is the variable x itself: `if datum is owner: Owner { owner.key }` loses the binding of `owner`")
